@@ -24,7 +24,8 @@ def gen_cases(rng, tier):
         m = max(n, 1)
         lo, hi = (-(1 << (m - 1)), (1 << (m - 1)) - 1) if signed else (0, (1 << m) - 1)
         v = rng.choice([lo, hi, lo - 1, hi + 1, lo + 1, hi - 1, 0, -1, 2 * hi + 5, -(1 << (m + 3)), 1 << (m + 70)])
-        yield {'op': 'int', 'name': name, 'n': n, 'v': v, 'route': rng.choice(ROUTES6), 'cls': rng.choice(CLASSES)}
+        yield {'op': 'int', 'name': name, 'n': n, 'v': v, 'route': rng.choice(ROUTES6), 'cls': rng.choice(CLASSES),
+               'astext': rng.choice([None, None, None, 'plain', 'zeros', 'zeros', 'plus', 'spaces'])}          # the integer given as decimal text, also zero-padded: the same value
     for _ in range(N // 4):
         yield {'op': 'badlen', 'name': rng.choice(['float', 'floatle', 'floatbe', 'bfloat', 'bool', 'p4binary', 'e4m3mxfp', 'e3m2mxfp', 'e2m1mxfp', 'mxint', 'hex', 'oct']),
                'n': rng.choice([0, 1, 2, 4, 5, 6, 7, 8, 12, 15, 16, 17, 24, 32, 48, 63, 64, 65, 128, -16]), 'route': rng.choice(['kw_len', 'kw_name', 'token', 'build', 'pack']), 'cls': rng.choice(CLASSES)}
@@ -148,7 +149,14 @@ def run_impl(c):
             except Exception as e:
                 return ['raised', exn_name(e), False]
             return a.data.bin[n:2 * n]
-    if op == 'int': return attempt(lambda: mk(c['name'], c['n'], c['v'], c['route']))
+    if op == 'int':
+        v = c['v']
+        how = c.get('astext')
+        if how and abs(v) < 10 ** 30 and c['route'] in ('kw_len', 'kw_name', 'setattr', 'setattr_plain', 'build', 'pack', 'array', 'token'):
+            digits = str(abs(v)); sign = '-' if v < 0 else ''
+            v = {'plain': sign + digits, 'zeros': sign + '00' + digits, 'plus': ('+' if v >= 0 else '-') + digits, 'spaces': ' ' + sign + digits + ' '}[how]
+            if c['route'] == 'token' and how == 'spaces': v = v.strip()
+        return attempt(lambda: mk(c['name'], c['n'], v, c['route']))
     if op == 'badlen':
         val = {'bool': True, 'hex': 'a' * max(0, c['n'] // 4), 'oct': '7' * max(0, c['n'] // 3)}.get(c['name'], 0.5)
         return attempt(lambda: mk(c['name'], c['n'], val, c['route']))
